@@ -1,8 +1,9 @@
-/- Driver ops for TSP.  Ops: tsp.{step,state,judge,instance};
+/- Driver ops for TSP.  Ops: tsp.{step,state,judge,instance,bounds};
    cfg = {"n": num_cities, "dense": bool, "penalty": rat (float32 value of -n*sqrt 2), "tol": rat};
    the state JSON carries the float32 distance matrix "D" next to the implementation's fields. -/
 import JumanjiModel.Bridge.Json
 import JumanjiModel.Env.TSP.Model
+import JumanjiModel.Env.TSP.Bounds
 open Lean Jb
 
 namespace Jb.TSP
@@ -92,6 +93,18 @@ def opInstance : Op := fun j => do
               ("reset_feasible", jBool (decide (Feasible n s))),
               ("distances_ok", jBool (decide (DistOK n D)))])
 
+def jBounds (t : Jm.OB.Table) : Json :=
+  jObj (t.map fun e => (e.1, jObj [("lo", match e.2.1 with | some r => jRat r | none => Json.null),
+                                   ("hi", match e.2.2 with | some r => jRat r | none => Json.null)]))
+
+/-- {"cfg": {"n": num_cities, …}} → {leaf path: {"lo": rat|null, "hi": rat|null}}: the proved observation bounds
+(C01); `position` is not listed (known finding F5: the reset observation has −1, outside the declared spec) -/
+def opBounds : Op := fun j => do
+  let cfg ← field j "cfg"
+  let n ← fNat cfg "n"
+  pure (jBounds (obsBounds n))
+
 def ops : List (String × Op) :=
-  [("tsp.step", opStep), ("tsp.state", opState), ("tsp.judge", opJudge), ("tsp.instance", opInstance)]
+  [("tsp.step", opStep), ("tsp.state", opState), ("tsp.judge", opJudge), ("tsp.instance", opInstance),
+   ("tsp.bounds", opBounds)]
 end Jb.TSP
